@@ -72,7 +72,7 @@ OPS_KEY = SC + "._DoOperation#operators"
 ARITH_TRUSTED = [
     "z3 5.1.0; cvc5 1.0.3 for z3's unknowns",
     "pyvc symbolic interpreter for Python semantics (operator dispatch, dict/OrderedDict, deepcopy)",
-    "callee contracts used instead of bodies: UnitDatabase.Convert, UnitDatabase.GetInfo, ObtainQuantity, Quantity.CreateEmpty (each verified against its own body in C01/C02/C07)",
+    "callee contracts used instead of bodies: UnitDatabase.Convert, _ConvertWithExp, GetInfo, ObtainQuantity, Quantity.__init__, ConvertScalarValue, Quantity.CreateEmpty - each verified against its own body; the clauses this property relies on are re-verified inside this check (callee closure). FixUnitIfIsLegacy on a non-literal string is the uninterpreted function fix (definitional; its ground behaviour is C16's table half)",
     "floats as reals (A1); a//b is floor of the real quotient",
 ]
 PROPS["C03"] = {
@@ -90,7 +90,7 @@ PROPS["C04"] = {
     "trusted": ARITH_TRUSTED,
 }
 PROPS["C09"] = {
-    "tasks": lambda tier: VP(OPS_KEY, 10) + VP(AR + "._DoOperation#operators", 12)
+    "tasks": lambda tier: VP(OPS_KEY, 10) + VP(AR + "._DoOperation#operators", 12) + [V(QM + ":Quantity.CreateEmpty")]
     + [("bounded_native", {"probe": "c09_float_bounded", "props": ["C09"], "bound": "10 values x 12 numbers k x 5 operators (+ - * / //), both operand orders, Scalar / Array over list, tuple, ndarray / FixedArray, plus one integer above 2**53 (1621 evaluations)", "what": "the operators apply exactly Python's / numpy's own float operation to the stored values (bit-for-bit), which the real-number model cannot distinguish from floor(fl(a/b)) or a value routed through a rounded intermediate"})],
     "level": "proof",
     "level_text": "For a Scalar x (simple, derived or empty quantity; thorough adds two-entry derived) and a plain int/float (thorough: numpy float) k, each of k*x, x*k, x/k, x//k, x+k, k+x, x-k, k-x, evaluated through Python's binary-operator dispatch on the real __op__/__rop__/_DoOperation bodies, is proved to return a new Scalar holding x's own quantity object and the operation applied to the value; k/x and k//x are proved to go through the database division with the empty quantity (reciprocal exponents, value k/x). The same is proved for list-, tuple- and numpy-backed Arrays of unbounded length with an int/float k on either side (Array._DoOperation with the database operations' contracts, see C10). A numpy array or numpy scalar k on the LEFT of an Array is decided by numpy's dispatch, which is outside the verified code (not claimed).",
@@ -123,7 +123,7 @@ PROPS["C05"] = {
 }
 
 PROPS["C07"] = {
-    "tasks": lambda tier: VP(QM + ":ObtainQuantity", 16) + [V(QM + ":Quantity.__init__"), V(QM + ":Quantity#value-semantics")] + VP(UDB + ":UnitDatabase.Sum", 3) + VP(UDB + ":UnitDatabase.Multiply", 4) + VP(OPS_KEY, 10),
+    "tasks": lambda tier: VP(QM + ":ObtainQuantity", 16) + [V(QM + ":Quantity.__init__"), V(QM + ":Quantity#value-semantics"), V(QM + ":Quantity.CreateEmpty")] + VP(UDB + ":UnitDatabase.Sum", 3) + VP(UDB + ":UnitDatabase.Multiply", 4) + VP(OPS_KEY, 10),
     "level": "proof",
     "level_text": "Quantity as an immutable interned value. (1) ObtainQuantity, every request form with symbolic names (unit with/without category and caption; composing maps with 1-2 entries (thorough 3), list or tuple pairs): the result is the object interned under the request's key; a repeated request returns the identical object; the intern table after the call is exactly the old table plus the keys of this request (so requests that differ in category, unit, exponent or caption never share an entry and nothing is overwritten); the new quantity owns a fresh composing map whose pairs are lists; failures leave the table unchanged. (2) Quantity.__init__ establishes the class invariant QI. (3) copy, deepcopy, Copy, MakeCopy(), CreateCopyInstance() return the object itself; SetUnknownCaption raises ReadOnlyError; == is exactly equality of (composing map, caption), symmetric, reflexive, False (never raising) against None/int/str/tuple; hash is congruent with ==; __reduce__ rebuilds an equal quantity. (4) Frame obligations: no database operation, Scalar operator, conversion or comparison under contract writes any slot of an operand quantity other than the two lazy caches, nor its composing map.",
     "level_note": "hash() is an uninterpreted function of the ==-class (A7); pickle itself is assumed to call __reduce__'s function on copies of its arguments (A8); intern-table invariant CC(K) assumed for hits; arithmetic frames shape-bounded as C03",
